@@ -46,9 +46,10 @@ type lockKey struct {
 }
 
 type lockState struct {
-	writer  bool
-	readers int
-	owner   int
+	writer        bool
+	readers       int
+	owner         int
+	writerWaiting int // RWMutex: a blocked Lock call excludes new readers (Go's writer preference)
 }
 
 type onceState struct {
@@ -364,7 +365,11 @@ func (r *Run) mutexLock(p Ptr) {
 	if r.job.SchedAll {
 		r.yield("lock")
 	}
-	r.blockUntil("Mutex.Lock", func() bool { return !ls.writer && ls.readers == 0 })
+	if ls.writer || ls.readers > 0 {
+		ls.writerWaiting++
+		r.blockUntil("Mutex.Lock", func() bool { return !ls.writer && ls.readers == 0 })
+		ls.writerWaiting--
+	}
 	ls.writer = true
 	ls.owner = r.cur.id
 }
@@ -386,7 +391,7 @@ func (r *Run) rwRLock(p Ptr) {
 	if r.job.SchedAll {
 		r.yield("rlock")
 	}
-	r.blockUntil("RWMutex.RLock", func() bool { return !ls.writer })
+	r.blockUntil("RWMutex.RLock", func() bool { return !ls.writer && ls.writerWaiting == 0 })
 	ls.readers++
 }
 
